@@ -20,6 +20,7 @@ type corpusHistory struct {
 	} `json:"commits"`
 	Origin  map[string]string `json:"origin"`
 	Renames [][2]string       `json:"renames"`
+	RenOnto []bool            `json:"renames_onto_deleted"`
 	Tainted map[string]bool   `json:"tainted"`
 }
 
@@ -54,7 +55,7 @@ func loadCorpusHistories(prop string) []*history {
 		if json.Unmarshal(b, &c) != nil || c.Fork == nil {
 			continue
 		}
-		hi := &history{Fork: c.Fork, Origin: c.Origin, RenEdits: c.Renames, Tainted: c.Tainted, Strata: []string{"corpus:" + c.Name}}
+		hi := &history{Fork: c.Fork, Origin: c.Origin, RenEdits: c.Renames, RenOnto: c.RenOnto, Tainted: c.Tainted, Strata: []string{"corpus:" + c.Name}}
 		if hi.Tainted == nil {
 			hi.Tainted = map[string]bool{}
 		}
